@@ -1081,8 +1081,12 @@ func (s *Server) publishToClient(cl *Client, sub packets.Subscription, pk packet
 			return out, packets.ErrQuotaExceeded
 		}
 
+		// an id is free only until a message is registered under it: two publishers delivering to the same
+		// client must not both find the same id unused
+		cl.State.inflightSetLock.Lock()
 		i, err := cl.NextPacketID() // [MQTT-4.3.2-1] [MQTT-4.3.3-1]
 		if err != nil {
+			cl.State.inflightSetLock.Unlock()
 			s.hooks.OnPacketIDExhausted(cl, pk)
 			atomic.AddInt64(&s.Info.InflightDropped, 1)
 			s.Log.Warn("packet ids exhausted", "error", err, "client", cl.ID, "listener", cl.Net.Listener)
@@ -1092,7 +1096,9 @@ func (s *Server) publishToClient(cl *Client, sub packets.Subscription, pk packet
 		out.PacketID = uint16(i) // [MQTT-2.2.1-4]
 		sentQuota := atomic.LoadInt32(&cl.State.Inflight.sendQuota)
 
-		if ok := cl.State.Inflight.Set(out); ok { // [MQTT-4.3.2-3] [MQTT-4.3.3-3]
+		ok := cl.State.Inflight.Set(out) // [MQTT-4.3.2-3] [MQTT-4.3.3-3]
+		cl.State.inflightSetLock.Unlock()
+		if ok {
 			atomic.AddInt64(&s.Info.Inflight, 1)
 			s.hooks.OnQosPublish(cl, out, out.Created, 0)
 			cl.State.Inflight.DecreaseSendQuota()
